@@ -153,7 +153,10 @@ def case(ctx, i):
         return s
     if want_private:
         if filt.rc != 0 or changed(rf):
-            r.violate("oracle:C26:private-change-not-filtered:%s:%s" % (style, e.kind),
+            # a public type that refers to itself ("as being reported") and reaches the private struct: the report then
+            # holds the public type's diff with every real change filtered - a family of its own
+            cyc = ":through-self-referencing-public-type" if ("as being reported" in filt.stdout and "filtered)" in filt.stdout) else ""
+            r.violate("oracle:C26:private-change-not-filtered%s" % (cyc or ":%s:%s" % (style, e.kind)),
                       "a change to a struct defined only in the private header is still reported with the header options: exit %s, interfaces %s (%s)"
                       % (filt.rc, sorted(changed(rf))[:4], what), control=ctrl.brief(), filtered=filt.brief())
     else:
@@ -168,7 +171,9 @@ def case(ctx, i):
             wl.abnormal_violation(r, drop, "abidiff --drop-private-types [%s]" % what)
         else:
             rd = report.Report(drop.stdout)
-            if not rd.unparsed and (drop.rc != filt.rc or changed(rd) != changed(rf)):
+            # (when a private struct changed as well, which of the using interfaces carries the - single - report of the
+            # public change may differ: only the status is compared then)
+            if not rd.unparsed and (drop.rc != filt.rc or (changed(rd) != changed(rf) and not both)):
                 r.violate("oracle:C26:drop-private-types-changes-verdict%s:%s" % ("-together-with-private-change" if both else "", e.kind),
                           "--drop-private-types changes the verdict on a public change: exit %s vs %s, interfaces %s vs %s (%s)"
                           % (drop.rc, filt.rc, sorted(changed(rd))[:4], sorted(changed(rf))[:4], what), filtered=filt.brief(), dropped=drop.brief())
